@@ -470,6 +470,21 @@ def obligations(tier):
   obs.append(step_momentum('positional', 'f-h-hh', Th))
   obs += [collision_pair('spring', 1, Q), collision_pair('spring', 2, Q), collision_pair('positional', 1, Q), collision_pair('positional', 2, Th), spring_rest('h'), spring_rest('s'), generalized_rest(), bounded(tier)]
 
+  def _sv():
+    from brax.spring import pipeline
+    from brax.io import mjcf
+    sys = mjcf.loads(tree_xml(SHAPES['f-(h,s)']))
+    st0 = pipeline.init(sys, sys.init_q, jp.zeros(sys.qd_size()))
+    leaves, treedef = jax.tree_util.tree_flatten(st0)
+
+    def f(q_, qd_, act):
+      st = pipeline.init(sys, q_, qd_)
+      st = pipeline.step(sys, st, act)
+      return st.x.pos, st.xd.vel, st.q
+    return f, [np.asarray(sys.init_q, dtype=float), np.zeros(sys.qd_size()), np.zeros(sys.act_size())]
+  from verif.contracts.common import engine_selfcheck
+  obs.append(engine_selfcheck('C04/engine/self_validation[spring init+step]', 'brax.spring.pipeline:init,step', _sv, budget=900))
+
   def canary():
     # claiming ANGULAR momentum-free internal torques about the origin without lever arms must be refuted
     from verif.engine.opaque import cut
